@@ -773,3 +773,39 @@ fire('main-suppresses-oserror', ['C19'], ['C19.B8'],
                 try:""",
          """            with contextlib.suppress(OSError), _open_input_file(s) as inf:
                 try:"""))
+
+# ---------------------------------------------------------------------------------------------
+# round 8: where the process runs; objects created at import time
+
+fire('header-relative-to-cwd', ['C18'], ['C18.N2'],
+     (G, """            filename = ' '.join(str(self.context.current_source_file).splitlines())""",
+         """            import os
+            filename = ' '.join(os.path.relpath(str(self.context.current_source_file)).splitlines())"""))
+
+fire('label-counter-on-module-object', ['C18'], ['C18.N6'],
+     (G, """    def get_cut_if_label(self):
+        self.cut_if_counter += 1
+        return "cutIf"+str(self.cut_if_counter)""",
+         """    def get_cut_if_label(self):
+        return "cutIf"+str(_labels.next())"""),
+     (G, """import itertools
+from .yp_prolog_visitor import *""",
+         """import itertools
+from .yp_prolog_visitor import *
+
+class _Labels:
+    def __init__(self):
+        self.n = 0
+    def next(self):
+        self.n += 1
+        return self.n
+
+_labels = _Labels()"""))
+
+silent('label-counter-on-own-object', ['C18', 'C01'],
+       (G, """    def get_cut_if_label(self):
+        self.cut_if_counter += 1
+        return "cutIf"+str(self.cut_if_counter)""",
+           """    def get_cut_if_label(self):
+        self.cut_if_counter = self.cut_if_counter + 1
+        return "cutIf%d" % self.cut_if_counter"""))
